@@ -102,6 +102,9 @@ def make_array(a: dict) -> np.ndarray:
         arr.flags.writeable = False
     else:
         raise ValueError(layout)
+    if a.get('slice') is not None:
+        lo, hi = a['slice']
+        arr = arr[lo:hi]
     return arr
 
 
@@ -331,8 +334,9 @@ def do_write(spec: dict, b: Built, path: str, scratch: str, data='__auto__', **o
     if w.get('to_idx') is not None:
         kwargs['to_idx'] = w['to_idx']
     try:
-        if data == '__auto__':
+        if isinstance(data, str) and data == '__auto__':
             data = make_write_data(spec, b, scratch)
+        b.write_data = data
         if data is not None:
             kwargs['data'] = data
         b.df.write(path, **kwargs)
